@@ -11,6 +11,7 @@ import (
 	"net"
 	"os"
 	"path/filepath"
+	"runtime"
 	"sort"
 	"testing"
 
@@ -115,6 +116,17 @@ func vh19Remote(t *testing.T, a p9.Attacher, msize uint32) (p9.File, func()) {
 
 // vh19Observe lists the directory reached from root by path and records Walk/GetAttr QIDs.
 func vh19Observe(t *testing.T, out *vhfsOut, fs int, root p9.File, path []string, names []string, remote bool, msize, count uint32) {
+	// The real client arms a finalizer on every clientFile (it clunks the fid): a File that is dropped
+	// could be clunked by the GC in the middle of the listing.  Everything obtained here stays referenced
+	// until the observation is complete and is then closed explicitly.
+	var keep []p9.File
+	defer func() {
+		for _, f := range keep {
+			f.Close()
+		}
+		runtime.KeepAlive(keep)
+		runtime.KeepAlive(root)
+	}()
 	o := vh19Pages{Kind: "pages", FS: fs, Remote: remote, MSize: msize, Count: count}
 	base := root
 	for _, p := range path {
@@ -122,6 +134,7 @@ func vh19Observe(t *testing.T, out *vhfsOut, fs int, root p9.File, path []string
 		if err != nil {
 			t.Fatalf("walk to %v: %v", path, err)
 		}
+		keep = append(keep, nb)
 		base = nb
 	}
 	_, d, err := base.Walk(nil)
@@ -136,6 +149,7 @@ func vh19Observe(t *testing.T, out *vhfsOut, fs int, root p9.File, path []string
 		o.Err = err.Error()
 	}
 	d.Close()
+	runtime.KeepAlive(d)
 	for _, n := range names {
 		o.Names = append(o.Names, vhfsName(n))
 	}
@@ -145,6 +159,9 @@ func vh19Observe(t *testing.T, out *vhfsOut, fs int, root p9.File, path []string
 			break
 		}
 		qs, f, err := base.Walk([]string{n})
+		if f != nil {
+			keep = append(keep, f)
+		}
 		if err != nil || len(qs) != 1 {
 			o.Err = fmt.Sprintf("walk %q: %v %v", n, qs, err)
 			o.WalkQ, o.GetQ = nil, nil
@@ -156,7 +173,6 @@ func vh19Observe(t *testing.T, out *vhfsOut, fs int, root p9.File, path []string
 			o.WalkQ, o.GetQ = nil, nil
 			break
 		}
-		f.Close()
 		o.WalkQ = append(o.WalkQ, vh19Q(qs[0]))
 		o.GetQ = append(o.GetQ, vh19Q(g))
 	}
@@ -306,6 +322,7 @@ func TestVerifC19Compose(t *testing.T) {
 				for _, cnt := range cs {
 					root, closefn := vh19Remote(t, f.mk(), ms)
 					vh19Observe(t, out, f.fs, root, f.path, f.names, true, ms, cnt)
+					root.Close()
 					closefn()
 				}
 			}
@@ -321,9 +338,9 @@ type vh19Leaf struct {
 	Names  []string `json:"names,omitempty"`
 }
 type vh19Mnt struct {
-	Name string     `json:"name"`
-	Leaf *vh19Leaf  `json:"leaf,omitempty"`
-	Sub  []vh19Mnt  `json:"sub,omitempty"`
+	Name  string    `json:"name"`
+	Leaf  *vh19Leaf `json:"leaf,omitempty"`
+	Sub   []vh19Mnt `json:"sub,omitempty"`
 	IsSub bool      `json:"issub"`
 }
 type vh19Op struct {
